@@ -45,7 +45,7 @@ Definition r_accepts_more r (cur : N) := cur <? vmax r.
 Definition action_default_num_args (a : action) : vrange :=
   match a with ASet | AAppend => r_single | _ => r_empty end.
 Definition action_max_num_args (a : action) : vrange :=
-  match a with ASet | AAppend => r_full | _ => r_empty end.
+  match a with ASet | AAppend => r_full | ASetTrue | ASetFalse => {| vmin := 0; vmax := 1 |} | _ => r_empty end.
 Definition s_true : bytes := [116; 114; 117; 101].
 Definition s_false : bytes := [102; 97; 108; 115; 101].
 Definition action_default_value (a : action) : option bytes :=
@@ -86,7 +86,7 @@ Definition vp_type (v : vparser) : N :=
   | VPRanged t _ _ => ity_type t
   end.
 Definition action_value_type (a : action) : option N :=
-  match a with ASetTrue | ASetFalse => Some 2 | ACount => Some 3 | _ => None end.
+  match a with ACount => Some 3 | _ => None end.
 
 Inductive pred := PEquals (v : bytes) | PIsPresent.
 
